@@ -9,3 +9,20 @@ pub assume_specification<P: std::str::pattern::Pattern> [str::replace] (s: &str,
 pub assume_specification [char::is_ascii] (c: &char) -> (r: bool) ensures r == ((*c as u32) < 128);
 pub assume_specification [char::encode_utf16] (c: char, dst: &mut [u16]) -> (r: &mut [u16])
     requires old(dst)@.len() >= 2;
+// ---- std items used by the parsers ----
+#[verifier::external_type_specification]
+#[verifier::external_body]
+pub struct ExFromUtf8Error(std::string::FromUtf8Error);
+#[verifier::external_type_specification]
+#[verifier::external_body]
+pub struct ExUtf8Error(std::str::Utf8Error);
+pub uninterp spec fn utf8_dec(b: Seq<u8>) -> Option<Seq<char>>;    // None: not valid UTF-8
+broadcast axiom fn axiom_utf8_roundtrip(b: Seq<u8>)
+    ensures #[trigger] utf8_dec(b) is Some ==> utf8(utf8_dec(b)->Some_0) == b;
+pub assume_specification [String::from_utf8] (v: Vec<u8>) -> (r: core::result::Result<String, std::string::FromUtf8Error>)
+    ensures r is Ok <==> utf8_dec(v@) is Some, r is Ok ==> Some(r->Ok_0@) == utf8_dec(v@);
+pub assume_specification<'a> [std::str::from_utf8] (v: &'a [u8]) -> (r: core::result::Result<&'a str, std::str::Utf8Error>)
+    ensures r is Ok <==> utf8_dec(v@) is Some, r is Ok ==> Some(r->Ok_0@) == utf8_dec(v@);
+// s.split(sep): the pieces, in order (non-empty list; pieces contain no separator; they rejoin to s) -- only used through outlined fragments
+pub uninterp spec fn split_spec(s: Seq<char>, sep: Seq<char>) -> Seq<Seq<char>>;
+pub assume_specification<'a> [<String as From<&'a str>>::from] (s: &str) -> (r: String) ensures r@ == s@;
